@@ -437,11 +437,15 @@ func Config(c absd.Cfg, l Layout, rng *rand.Rand) (yaml string, cli []string) {
 	twoList("required_fields", "required_fields", c.Required)
 	twoList("sensitive_fields", "sensitive", c.Sensitive)
 	if c.Separate {
-		twoStr("default_package_name", "default_package_name", l.StructImport)
-		twoStr("target_package_name", "target_package_name", l.TargetPkg)
 		if c.ImportOverride {
-			add("import_path_overrides", "import_path_overrides:\n  "+yq(l.StructImport)+": "+yq(l.StructImport)+"\n")
+			// the short package name as default_package_name, resolved to the import path by import_path_overrides
+			short := l.StructImport[strings.LastIndex(l.StructImport, "/")+1:]
+			twoStr("default_package_name", "default_package_name", short)
+			add("import_path_overrides", "import_path_overrides:\n  "+yq(short)+": "+yq(l.StructImport)+"\n")
+		} else {
+			twoStr("default_package_name", "default_package_name", l.StructImport)
 		}
+		twoStr("target_package_name", "target_package_name", l.TargetPkg)
 	}
 	twoStr("duration_custom_type", "custom_duration", c.DurationCustom)
 	switch channelOf(c, "sort") {
